@@ -11,7 +11,7 @@ using namespace vo;
 using MatXd = Eigen::MatrixXd;
 const char* vf_driver() { return "c16_svd"; }
 static const LD C = 200, G = 4;
-static const char* KIND[] = {"prescribed-singular-values", "gaussian", "rank-deficient", "zero-tail", "scaled", "near-double-leading-values", "equal-singular-values"};
+static const char* KIND[] = {"prescribed-singular-values", "gaussian", "rank-deficient", "zero-tail", "scaled", "near-double-leading-values", "equal-singular-values", "graded-leading"};
 static const char* STOR[] = {"dense-colmajor", "dense-rowmajor", "sparse-colmajor", "sparse-rowmajor"};
 
 template <class SVD, class Info>
@@ -146,7 +146,7 @@ void vf_run_case(vf::Ctx& ctx, long idx)
     if (shape == 0 && m <= n) m = n + (int) r.range(1, 10);
     if (shape == 1 && m >= n) n = m + (int) r.range(1, 10);
     if (shape == 2) n = m;
-    const int kind = corpus ? 4 : (int) r.range(0, 6);
+    const int kind = corpus ? 4 : (int) r.range(0, 7);
     if (kind == 5)
     {
         // larger problems: the bulk has to be wide enough for the iteration to take several restarts
@@ -179,6 +179,16 @@ void vf_run_case(vf::Ctx& ctx, long idx)
             std::sort(sv.data() + lead, sv.data() + mn, std::greater<double>());
             const int j = (int) r.range(0, std::max(0, lead - 3));
             sv[j + 1] = sv[j] * (1.0 - std::pow(10.0, -(double) r.range(5, 9)));
+        }
+        // strongly graded leading values: the wanted singular values fall by 2.5 to 3.9 decades (still above the 1e-4 ||A|| from which on the factor identities
+        // are judged), the rest lies below them
+        if (kind == 7)
+        {
+            const int lead = std::min(mn - 1, (int) r.range(3, 7));
+            g_lead = lead;
+            const double dec = r.uni(2.5, 3.9);
+            for (int i = 0; i < mn; i++) sv[i] = i < lead ? std::pow(10.0, -dec * i / std::max(1, lead - 1)) : std::pow(10.0, -dec) * r.uni(0.05, 0.5);
+            std::sort(sv.data() + lead, sv.data() + mn, std::greater<double>());
         }
         A = U * sv.asDiagonal() * V.transpose();
         // The inner symmetric solver stops at tol * max(eps^(2/3), sigma^2): for ||A||^2 below eps^(2/3) (||A|| < ~1e-5) the absolute floor decides and the requested
